@@ -69,7 +69,7 @@ class IdealReservoir:
             alpha_scaled = self.alpha_scaled(b)
             kt_h2 = mesh_ratio * alpha_scaled
             a_matrix = _build_matrix(kt_h2)
-            pseudopressure[i + 1], _ = sparse.linalg.bicgstab(a_matrix, b, atol=_ATOL)
+            pseudopressure[i + 1] = sparse.linalg.spsolve(a_matrix, b)
         # a recovery cached from an earlier run does not belong to these results
         self.__dict__.pop("recovery", None)
         self.time, self.pseudopressure = time, pseudopressure
@@ -210,7 +210,7 @@ class SinglePhaseReservoir(IdealReservoir):
                 raise ValueError(msg) from e
             kt_h2 = mesh_ratio * alpha_scaled
             a_matrix = _build_matrix(kt_h2)
-            pseudopressure[i + 1], _ = sparse.linalg.bicgstab(a_matrix, b, atol=_ATOL)
+            pseudopressure[i + 1] = sparse.linalg.spsolve(a_matrix, b)
         # a recovery cached from an earlier run does not belong to these results
         self.__dict__.pop("recovery", None)
         self.time, self.pseudopressure = time, pseudopressure
